@@ -1,7 +1,7 @@
 (* C12 — property theorems only. Each is closed by [exact] of a lemma of Proofs_*.v; Examples are non-vacuity /
    refutation witnesses computed on concrete data. No bound on the number of samples, variables or lags anywhere. *)
 From Coq Require Import List ZArith QArith Bool Permutation Sorted Reals Qreals.
-From Gst Require Import lib.QAux C12.Model C12.Spec C12.Proofs.
+From Gst Require Import lib.QAux C12.Model C12.ModelExt C12.Spec C12.Proofs.
 Import ListNotations.
 Local Open Scope Q_scope.
 
@@ -413,3 +413,222 @@ Example C12_bysample_mirror_refuted :
   map o_gg (nth 0 (spec_solution2 cf wit_dir l') []) = [Some (2, 2); Some (6, 6); Some (49 # 2, 49 # 2)] /\
   map o_gg (nth 0 (solution1 cf wit_dir l) []) = map o_gg (nth 0 (solution1 cf wit_dir l') []).
 Proof. cbv zeta. repeat split; vm_compute; reflexivity. Qed.
+
+(* ------------------------------------------------------------------ irregular lags (breaks) *)
+(* getLagRank with breaks returns the FIRST lag k < npas whose interval ]b_k, b_{k+1}] contains the distance ... *)
+Theorem C12_lagrank_irregular : forall npas bs d2 k,
+  lag_rank_irr npas bs d2 = Some k <->
+  (k < npas)%nat /\ in_break_P bs d2 k /\ forall j, (j < k)%nat -> ~ in_break_P bs d2 j.
+Proof. exact lag_rank_irr_spec. Qed.
+Print Assumptions C12_lagrank_irregular.
+(* ... which, for increasing non-negative breaks, is the only one ... *)
+Theorem C12_lagrank_irregular_unique : forall bs d2 j k,
+  breaks_increasing bs -> 0 <= nth 0 bs 0 -> (S j < length bs)%nat -> (S k < length bs)%nat ->
+  in_break_P bs d2 j -> in_break_P bs d2 k -> j = k.
+Proof. exact in_break_unique. Qed.
+Print Assumptions C12_lagrank_irregular_unique.
+(* ... the interval test on squares being  b_k < sqrt(d2) <= b_{k+1}  over the reals ... *)
+Theorem C12_lagrank_irregular_real : forall lo hi d2 : Q, 0 <= d2 ->
+  ((lo < 0 \/ lo * lo < d2) /\ 0 <= hi /\ d2 <= hi * hi <-> (Q2R lo < sqrt (Q2R d2) <= Q2R hi)%R).
+Proof. exact in_break_real. Qed.
+Print Assumptions C12_lagrank_irregular_real.
+(* ... and the 1-D pruning at the last break is harmless when the breaks increase *)
+Theorem C12_break_irregular : forall npas bs d2 dx,
+  breaks_increasing bs -> (npas < length bs)%nat -> 0 <= nth 0 bs 0 ->
+  0 <= d2 -> dx * dx <= d2 -> maxdist_irr npas bs < dx -> lag_rank_irr npas bs d2 = None.
+Proof. exact beyond_maxdist_irr. Qed.
+Print Assumptions C12_break_irregular.
+Example C12_lagrank_irregular_nonvacuous :
+  let bs := [0; 1; 5 # 2; 4] in
+  lag_rank_irr 3 bs 0 = None /\ lag_rank_irr 3 bs 1 = Some 0%nat /\ lag_rank_irr 3 bs 2 = Some 1%nat /\
+  lag_rank_irr 3 bs (25 # 4) = Some 1%nat /\ lag_rank_irr 3 bs 16 = Some 2%nat /\ lag_rank_irr 3 bs 17 = None.
+Proof. vm_compute. repeat split; reflexivity. Qed.
+
+(* ------------------------------------------------------------------ grid indices, conservation *)
+Theorem C12_grid_indices : forall nx,
+  (forall r, (r < grid_size nx)%nat -> index_to_rank nx (rank_to_index nx r) = Some r) /\
+  (forall u v r, index_to_rank nx u = Some r -> index_to_rank nx v = Some r -> u = v) /\
+  (forall idx r, index_to_rank nx idx = Some r -> (r < grid_size nx)%nat).
+Proof. exact (fun nx => conj (index_rank_inverse nx) (conj (index_to_rank_inj nx) (index_to_rank_bound nx))). Qed.
+Print Assumptions C12_grid_indices.
+
+(* every increment addressed to one of the n cells (lags of a variogram, cells of a map) is accounted for exactly once *)
+Theorem C12_conservation : forall ufld n us,
+  sumQ (map (fun k => fsum ufld k us) (seq 0 n)) == sumQ (map ufld (filter (fun u => Nat.ltb (u_addr u) n) us)).
+Proof. exact fsum_total. Qed.
+Print Assumptions C12_conservation.
+
+(* ------------------------------------------------------------------ grid algorithm = general algorithm *)
+(* Nodes of a regular grid (coordinates x0 + index * dx, dx > 0) in rank order; direction = the grid increment g (codir = g*dx),
+   zero angular tolerance (psmin = 1), lag = length of the increment (rational), no distance tolerance, no bench / cylinder:
+   for every lag 1 <= k < npas and every variable pair the weight and the value sums of Vario::_calculateGeneralSolution1 and of
+   Vario::_calculateOnGridSolution coincide (variogram).  Lag 0 is never written by the grid algorithm. *)
+Theorem C12_grid_eq_general : forall cf d nx dx x0 g cells,
+  c_calc cf = Vg -> c_dateLoop cf = false -> c_dateChk cf = false ->
+  d_psmin d == 1 -> d_tol d == 0 -> d_bench d = None -> d_cyl d = None ->
+  d_codir d = qv g dx -> 0 < d_dpas d -> d_dpas d * d_dpas d == dot (qv g dx) (qv g dx) ->
+  Forall (fun e => 0 < e) dx -> length nx = length dx -> length g = length dx -> length x0 = length dx ->
+  (forall r s, nth_error cells r = Some s -> s_x s = coord x0 dx (rank_to_index nx r)) ->
+  length cells = grid_size nx ->
+  forall k iv jv, (1 <= k)%nat -> (k < d_npas d)%nat -> (jv <= iv)%nat -> (iv < c_nvar cf)%nat ->
+  forall means',
+  let adr := dir_address false (d_npas d) iv jv k Ozero in
+  let cg := nth adr (accumulate1 cf d cells) cell0 in
+  let cr := nth adr (apply_upds (zero_arr cf d)
+                       (grid_updates cf (d_npas d) (sqrt_lo (d_dpas d * d_dpas d)) (sqrt_hi (d_dpas d * d_dpas d)) means' nx cells g)) cell0 in
+  a_sw cg == a_sw cr /\ a_glo cg == a_glo cr /\ a_ghi cg == a_ghi cr.
+Proof.
+  intros cf d nx dx x0 g cells H1 H2 H3 H4 H5 H6 H7 H8 H9 H10 H11 H12 H13 H14 H15 H16 k iv jv K1 K2 K3 K4 means'.
+  exact (grid_eq_general_raw cf d nx dx x0 g cells H1 H2 H3 H4 H5 H6 H7 H8 H9 H10 H11 H12 H13 H14 H15 H16 k iv jv K1 K2 K3 K4 means').
+Qed.
+Print Assumptions C12_grid_eq_general.
+
+(* mean separation of the grid algorithm: the distance sums of lag k are k times the (enclosure of the) increment length times
+   the weight sum, i.e. the reported hh is exactly k |increment| *)
+Theorem C12_grid_hh : forall cf d nx (dx x0 : list Q) g cells,
+  c_calc cf = Vg -> length nx = length dx -> length g = length dx -> length x0 = length dx -> length cells = grid_size nx ->
+  forall k iv jv, (1 <= k)%nat -> (k < d_npas d)%nat -> (jv <= iv)%nat -> (iv < c_nvar cf)%nat ->
+  forall dlo dhi means',
+  let adr := dir_address false (d_npas d) iv jv k Ozero in
+  let us := grid_updates cf (d_npas d) dlo dhi means' nx cells g in
+  fsum u_hlo adr us == inject_Z (Z.of_nat k) * dlo * fsum u_sw adr us /\
+  fsum u_hhi adr us == inject_Z (Z.of_nat k) * dhi * fsum u_sw adr us.
+Proof. exact grid_hh_exact. Qed.
+Print Assumptions C12_grid_hh.
+
+(* the same agreement for the centred / non-centred covariance, both sides (o = Oplus, Ominus) of every lag *)
+Theorem C12_grid_eq_general_cov : forall cf d nx dx x0 g cells,
+  c_calc cf = Cov \/ c_calc cf = CovNC -> c_dateLoop cf = false -> c_dateChk cf = false ->
+  d_psmin d == 1 -> d_tol d == 0 -> d_bench d = None -> d_cyl d = None ->
+  d_codir d = qv g dx -> 0 < d_dpas d -> d_dpas d * d_dpas d == dot (qv g dx) (qv g dx) ->
+  Forall (fun e => 0 < e) dx -> length nx = length dx -> length g = length dx -> length x0 = length dx ->
+  (forall r s, nth_error cells r = Some s -> s_x s = coord x0 dx (rank_to_index nx r)) ->
+  length cells = grid_size nx ->
+  forall k iv jv o, (1 <= k)%nat -> (k < d_npas d)%nat -> (jv <= iv)%nat -> (iv < c_nvar cf)%nat -> o <> Ozero ->
+  forall means',
+  let adr := dir_address true (d_npas d) iv jv k o in
+  let cg := nth adr (accumulate1 cf d cells) cell0 in
+  let cr := nth adr (apply_upds (zero_arr cf d)
+                       (grid_updates cf (d_npas d) (sqrt_lo (d_dpas d * d_dpas d)) (sqrt_hi (d_dpas d * d_dpas d)) means' nx cells g)) cell0 in
+  a_sw cg == a_sw cr /\ a_glo cg == a_glo cr /\ a_ghi cg == a_ghi cr.
+Proof.
+  intros cf d nx dx x0 g cells H1 H2 H3 H4 H5 H6 H7 H8 H9 H10 H11 H12 H13 H14 H15 H16 k iv jv o K1 K2 K3 K4 K5 means'.
+  exact (grid_eq_general_cov cf d nx dx x0 g cells H1 H2 H3 H4 H5 H6 H7 H8 H9 H10 H11 H12 H13 H14 H15 H16 k iv jv o K1 K2 K3 K4 K5 means').
+Qed.
+Print Assumptions C12_grid_eq_general_cov.
+
+(* the pairs of lag k of such a direction are exactly the pairs of nodes k increments apart *)
+Theorem C12_grid_pairs : forall d nx dx x0 g cells,
+  d_psmin d == 1 -> d_tol d == 0 -> d_bench d = None -> d_cyl d = None ->
+  d_codir d = qv g dx -> 0 < d_dpas d -> d_dpas d * d_dpas d == dot (qv g dx) (qv g dx) ->
+  Forall (fun e => 0 < e) dx -> length nx = length dx -> length g = length dx -> length x0 = length dx ->
+  (forall r s, nth_error cells r = Some s -> s_x s = coord x0 dx (rank_to_index nx r)) ->
+  forall ra rb a b k, nth_error cells ra = Some a -> nth_error cells rb = Some b -> (1 <= k)%nat -> (k < d_npas d)%nat ->
+  (pair_in d k a b = true <->
+   vsubZ (rank_to_index nx rb) (rank_to_index nx ra) = scaleZ (Z.of_nat k) g \/
+   vsubZ (rank_to_index nx rb) (rank_to_index nx ra) = scaleZ (- Z.of_nat k) g).
+Proof. exact pair_in_grid. Qed.
+Print Assumptions C12_grid_pairs.
+
+Definition gx_cells : list sample :=
+  map (fun rz : nat * Q => {| s_x := coord [0; 1] [1; 2] (rank_to_index [3; 3]%nat (fst rz)); s_sel := true; s_w := None; s_date := None;
+                              s_z := [Some (snd rz)] |})
+      (combine (seq 0 9) [1; 4; 2; 7; 0; 3; 5; 5; 9]).
+Example C12_grid_eq_general_nonvacuous :
+  (* 3 x 3 grid, mesh (1, 2), increment (1, 1): codir (1, 2), lag length... taken along (0, 1): codir (0, 2), lag 2 *)
+  let cf := {| c_calc := Vg; c_hasSel := false; c_hasW := false; c_dateLoop := false; c_dateChk := false; c_nvar := 1 |} in
+  let d := {| d_npas := 3; d_dpas := 2; d_tol := 0; d_psmin := 1; d_codir := qv [0; 1]%Z [1; 2]; d_bench := None; d_cyl := None; d_dmin := 0; d_dmax := 0 |} in
+  let gen := accumulate1 cf d gx_cells in
+  let grd := apply_upds (zero_arr cf d) (grid_updates cf 3 (sqrt_lo 4) (sqrt_hi 4) [] [3; 3]%nat gx_cells [0; 1]%Z) in
+  map a_sw gen = [0; 6; 3] /\ map a_sw grd = [0; 6; 3] /\ map a_glo gen = map a_glo grd /\ 0 < a_glo (nth 1 grd cell0) /\
+  (* mean separation of the grid algorithm: exactly k times the increment *)
+  map a_hlo grd = [0; 12; 12].
+Proof. vm_compute. repeat split; reflexivity. Qed.
+
+(* ------------------------------------------------------------------ variogram map, variogram cloud *)
+(* db_vmap on a grid: an ordered pair of active nodes goes to the single cell of its index difference; the map is symmetric:
+   the cells of delta and of -delta hold the same weight and the same value sums (variogram, madogram, rodogram, order 4) *)
+Theorem C12_vmap_symmetric : forall cf nx cells nxx,
+  plain_sym (c_calc cf) -> length nx = length nxx ->
+  forall delta t t' iv jv,
+  length delta = length nxx ->
+  index_to_rank (map_nx nxx) (vaddZ delta (half_sizes nxx)) = Some t ->
+  index_to_rank (map_nx nxx) (vaddZ (map Z.opp delta) (half_sizes nxx)) = Some t' ->
+  (jv <= iv)%nat -> (iv < c_nvar cf)%nat ->
+  let us := vmap_grid_updates cf nx cells nxx in
+  let n := grid_size (map_nx nxx) in
+  fsum u_sw (dir_address false n iv jv t Ozero) us == fsum u_sw (dir_address false n iv jv t' Ozero) us /\
+  fsum u_glo (dir_address false n iv jv t Ozero) us == fsum u_glo (dir_address false n iv jv t' Ozero) us /\
+  fsum u_ghi (dir_address false n iv jv t Ozero) us == fsum u_ghi (dir_address false n iv jv t' Ozero) us.
+Proof.
+  intros cf nx cells nxx Hc Hd delta t t' iv jv Ld Ht Ht' Hj Hi. cbv zeta. repeat split.
+  - exact (vmap_grid_symmetric cf nx cells nxx Hc Hd u_sw (fun u u' H1 H2 H3 H4 H5 => H1) delta t t' iv jv Ld Ht Ht' Hj Hi).
+  - exact (vmap_grid_symmetric cf nx cells nxx Hc Hd u_glo (fun u u' H1 H2 H3 H4 H5 => H4) delta t t' iv jv Ld Ht Ht' Hj Hi).
+  - exact (vmap_grid_symmetric cf nx cells nxx Hc Hd u_ghi (fun u u' H1 H2 H3 H4 H5 => H5) delta t t' iv jv Ld Ht Ht' Hj Hi).
+Qed.
+Print Assumptions C12_vmap_symmetric.
+
+(* db_vcloud: every accepted pair with both values defined that falls inside the grid of the cloud is counted in exactly one cell *)
+Theorem C12_vcloud_total : forall cf d lagnb varnb dx0 dx1 l,
+  fold_right Z.add 0%Z (vcloud cf d lagnb varnb dx0 dx1 l) = Z.of_nat (length (cloud_hits cf d lagnb varnb dx0 dx1 l)).
+Proof. exact vcloud_total. Qed.
+Print Assumptions C12_vcloud_total.
+
+Example C12_vmap_vcloud_nonvacuous :
+  let cf := {| c_calc := Vg; c_hasSel := false; c_hasW := false; c_dateLoop := false; c_dateChk := false; c_nvar := 1 |} in
+  let m := vmap_grid cf [3; 3]%nat gx_cells [1; 1]%nat in
+  map o_sw (nth 0 m []) = [4; 6; 4; 6; 9; 6; 4; 6; 4] /\
+  map o_gg (nth 0 m []) = rev (map o_gg (nth 0 m [])) /\
+  let d := {| d_npas := 3; d_dpas := 1; d_tol := 1 # 2; d_psmin := 0; d_codir := [1; 0]; d_bench := None; d_cyl := None; d_dmin := 0; d_dmax := 0 |} in
+  fold_right Z.add 0%Z (vcloud cf d 3 4 2 8 gx_cells) = 34%Z.
+Proof. vm_compute. repeat split; reflexivity. Qed.
+
+(* ------------------------------------------------------------------ generalised variograms G1, G2, G3 *)
+(* the weight tables are those of the finite differences of order 2, 3, 4: they sum to zero, annihilate linear trends,
+   and NORWGT is the sum of their squares *)
+Theorem C12_gen_weights : forall norder, (1 <= norder <= 3)%nat ->
+  let (ws, nor) := gen_weights norder in
+  wsum 0 0 ws == 0 /\ wsum 1 0 ws == 0 /\ dot ws ws == nor /\ length ws = (norder + 2)%nat.
+Proof. exact gen_weights_facts. Qed.
+Print Assumptions C12_gen_weights.
+
+(* every term accumulated by Vario::_calculateGenOnGridSolution: weight 1 at lag ipas, value = squared finite difference of the
+   aligned node values z(r), z(r + ipas g), z(r + 2 ipas g), ... over the weight table, divided by NORWGT *)
+Theorem C12_gen_value : forall cf npas dlo dhi norder nx cells g u,
+  In u (gen_updates cf npas dlo dhi norder nx cells g) ->
+  exists r a ipas z0 zs,
+    nth_error cells r = Some a /\ (1 <= ipas < npas)%nat /\ zval a 0 = Some z0 /\
+    gen_values cf nx cells r g ipas 1 (length (tl (fst (gen_weights norder)))) = Some zs /\
+    u_addr u = ipas /\ u_sw u == 1 /\
+    u_glo u == dot (z0 :: zs) (fst (gen_weights norder)) * dot (z0 :: zs) (fst (gen_weights norder)) / snd (gen_weights norder) /\
+    u_ghi u == u_glo u.
+Proof. exact gen_updates_value. Qed.
+Print Assumptions C12_gen_value.
+
+(* on a one-dimensional data set in rank order the line version (_calculateOnLineSolution, any accepting direction) and the grid
+   version (increment 1) add the same weights and values to every lag *)
+Theorem C12_gen_line_eq_grid : forall cf d cells c0,
+  d_codir d = [c0] -> ~ c0 == 0 -> 0 <= d_psmin d -> d_psmin d <= 1 -> d_bench d = None -> d_cyl d = None ->
+  (forall r s, nth_error cells r = Some s -> exists x, s_x s = [x]) ->
+  forall norder dlo dhi k,
+  let lu := line_updates cf d norder cells in
+  let gu := gen_updates cf (d_npas d) dlo dhi norder [length cells] cells [1%Z] in
+  fsum u_sw k lu == fsum u_sw k gu /\ fsum u_glo k lu == fsum u_glo k gu /\ fsum u_ghi k lu == fsum u_ghi k gu.
+Proof.
+  intros cf d cells c0 H1 H2 H3 H4 H5 H6 H7 norder dlo dhi k. cbv zeta. repeat split.
+  - apply (line_eq_grid_1d cf d cells c0 H1 H2 H3 H4 H5 H6 H7 u_sw). intros u u' E1 E2 E3 E4. rewrite E1. destruct (Nat.eqb (u_addr u') k); [exact E2|reflexivity].
+  - apply (line_eq_grid_1d cf d cells c0 H1 H2 H3 H4 H5 H6 H7 u_glo). intros u u' E1 E2 E3 E4. rewrite E1. destruct (Nat.eqb (u_addr u') k); [exact E3|reflexivity].
+  - apply (line_eq_grid_1d cf d cells c0 H1 H2 H3 H4 H5 H6 H7 u_ghi). intros u u' E1 E2 E3 E4. rewrite E1. destruct (Nat.eqb (u_addr u') k); [exact E4|reflexivity].
+Qed.
+Print Assumptions C12_gen_line_eq_grid.
+
+Example C12_gen_nonvacuous :
+  let cf := {| c_calc := Vg; c_hasSel := false; c_hasW := false; c_dateLoop := false; c_dateChk := false; c_nvar := 1 |} in
+  let cells := map (fun xz : Q * Q => {| s_x := [fst xz]; s_sel := true; s_w := None; s_date := None; s_z := [Some (snd xz)] |})
+                   [(0, 1); (1, 4); (2, 2); (3, 7); (4, 0); (5, 3); (6, 5)] in
+  let d := {| d_npas := 3; d_dpas := 1; d_tol := 1 # 2; d_psmin := 0; d_codir := [1]; d_bench := None; d_cyl := None; d_dmin := 0; d_dmax := 0 |} in
+  (* order 1 at lag 1: second differences (1 - 2*4 + 2)^2 / 6, ... five of them *)
+  map u_glo (filter (fun u => Nat.eqb (u_addr u) 1) (gen_updates cf 3 1 1 1 [7]%nat cells [1%Z])) = [25 # 6; 49 # 6; 144 # 6; 100 # 6; 1 # 6] /\
+  map u_glo (filter (fun u => Nat.eqb (u_addr u) 1) (line_updates cf d 1 cells)) = [25 # 6; 49 # 6; 144 # 6; 100 # 6; 1 # 6] /\
+  length (filter (fun u => Nat.eqb (u_addr u) 2) (line_updates cf d 1 cells)) = 3%nat.
+Proof. vm_compute. repeat split; reflexivity. Qed.
